@@ -5,13 +5,22 @@ From Coq Require Import ZArith Bool Lia.
 From Verif Require Import Model.DKGPure Model.DKGDriver Generated.DkgPhase.
 Open Scope Z_scope.
 
+(* Every comparison atom of both sides is destructed (its truth value replaces it, its meaning
+   becomes a linear hypothesis), the boolean connectives are computed, and what remains are two
+   phase constants, equal unless the hypotheses are contradictory.  A reordering or rephrasing of
+   the tests in the source that leaves the decision unchanged (>= for a negated <, a tagless
+   switch, an else-if chain, an inlined local) does not break the proof; a changed boundary or
+   phase does. *)
+Ltac split_atoms :=
+  repeat match goal with
+         | |- context [Z.eqb ?a ?b] => destruct (Z.eqb_spec a b)
+         | |- context [Z.ltb ?a ?b] => destruct (Z.ltb_spec a b)
+         | |- context [Z.leb ?a ?b] => destruct (Z.leb_spec a b)
+         end;
+  cbn [negb andb orb]; try reflexivity; try (exfalso; lia).
+
 Theorem phase_at_is_generated (L height start : Z) : phase_at L height start = gen_phase_at L height start.
 Proof.
   unfold phase_at, gen_phase_at, gen_new_constant_phase_length, gen_get_phase_at_height.
-  repeat match goal with
-         | |- context [?a <? ?b] => let H := fresh "H" in destruct (a <? b) eqn:H;
-                                     [apply Z.ltb_lt in H|apply Z.ltb_ge in H]
-         | |- context [?a <=? ?b] => let H := fresh "H" in destruct (a <=? b) eqn:H;
-                                      [apply Z.leb_le in H|apply Z.leb_gt in H]
-         end; try reflexivity; exfalso; lia.
+  cbv zeta. split_atoms.
 Qed.
